@@ -177,7 +177,7 @@ def holdsOf (w : World) (o : Out) : List (String × Bool) :=
    ("C07.ctl_extra_status_exact", extraExact w o), ("C11.ctl_extra_status_exact", extraExact w o),
    ("C07.ctl_requeue_until_satisfied", requeueUntilSatisfied w o),
    ("C06.ctl_errors_reported", errorsReported w o), ("C06.ctl_both_attempted", bothAttempted w o),
-   ("C17.ctl_paused_scales_only", pausedScalesOnly w o)]
+   ("C17.ctl_paused_scales_only", pausedScalesOnly w o && pausedSizesKept w o)]
 
 def evtOfStr : String → R Evt
   | "create" => pure .create | "update" => pure .update | "delete" => pure .delete | "generic" => pure .generic
